@@ -107,6 +107,17 @@ class DatedDefaultTime(DefaultTime):
         return TimeGrid(start=0.0, end=maturity, num=self.num)
 
 
+class StochasticDatesCall(Vanilla):
+    """a call on the spot at maturity whose dates are declared path-dependent: the process is then simulated on its own
+    jump times, and the payoff still sees everything that moves the spot (jumps, drift AND the diffusion part)"""
+
+    def __init__(self, strike):
+        from rpylib.product.payoff import PayoffDates
+
+        super().__init__(strike=strike, payoff_type=PayoffType.CALL)
+        self.payoff_dates_type = PayoffDates.STOCHASTIC
+
+
 def build_product(spec, model=None):
     """spec: {"kind":..., "maturity":..., "dates": n (number of time points incl. 0), "strike":..., "notional":...}"""
     kind = spec["kind"]
@@ -133,6 +144,8 @@ def build_product(spec, model=None):
     elif kind == "barrier":
         pay = Barrier(strike=k, payoff_type=PayoffType[spec.get("cp", "CALL")],
                       barrier_type=BarrierType[spec["barrier_type"]], barrier=spec["barrier"])
+    elif kind == "stoch_call":
+        pay = StochasticDatesCall(k)
     elif kind == "cds":
         und = (DefaultTime(default_level=spec.get("default_level", -0.08)) if dates <= 2
                else DatedDefaultTime(spec.get("default_level", -0.08), dates))
